@@ -2,6 +2,7 @@ package device
 
 import (
 	"fmt"
+	"math"
 	"os"
 	"sort"
 	"sync"
@@ -197,7 +198,7 @@ func (d *Device) NoteOn(ev *input.InputEvent) {
 		return
 	}
 	note := key.Note
-	noteCalculatored := int(note) + d.octave*12 + d.semitone
+	noteCalculatored := int(note) + d.transposition()
 	if noteCalculatored < 0 || noteCalculatored > 127 {
 		return
 	}
@@ -281,7 +282,7 @@ func (d *Device) noteOff(key keyID, ev *input.InputEvent) {
 }
 
 func (d *Device) AnalogNoteOn(identifier string, note byte, channelOffset byte, ev *input.InputEvent) { // TODO: multinote, collision handler
-	noteCalculatored := int(note) + d.octave*12 + d.semitone
+	noteCalculatored := int(note) + d.transposition()
 	if noteCalculatored < 0 || noteCalculatored > 127 {
 		return
 	}
@@ -312,7 +313,27 @@ func (d *Device) AnalogNoteOff(identifier string, ev *input.InputEvent) {
 	}
 }
 
+// transposition returns 12*octave + semitone, the number of semitones every note is moved by. Octave and semitone can be
+// any integers (the configured defaults are taken as they are), so the sum is formed in a way that cannot overflow; far
+// outside the range in which any pitch is playable it saturates.
+func (d *Device) transposition() int {
+	whole, rest := d.semitone/12, d.semitone%12
+	octaves := d.octave + whole
+	up := whole > 0 && octaves < d.octave   // the addition went past the largest integer ...
+	down := whole < 0 && octaves > d.octave // ... or past the smallest
+	switch {
+	case up, !down && octaves > 1<<24:
+		return 1 << 30
+	case down, octaves < -(1 << 24):
+		return -(1 << 30)
+	}
+	return 12*octaves + rest
+}
+
 func (d *Device) OctaveDown() {
+	if d.octave == math.MinInt {
+		return
+	}
 	d.octave--
 	if !d.noLogs {
 		log.Info(fmt.Sprintf("octave down (%d)", d.octave), d.logFields(logger.Action)...)
@@ -320,6 +341,9 @@ func (d *Device) OctaveDown() {
 }
 
 func (d *Device) OctaveUp() {
+	if d.octave == math.MaxInt {
+		return
+	}
 	d.octave++
 	if !d.noLogs {
 		log.Info(fmt.Sprintf("octave up (%d)", d.octave), d.logFields(logger.Action)...)
@@ -334,6 +358,9 @@ func (d *Device) OctaveReset() {
 }
 
 func (d *Device) SemitoneDown() {
+	if d.semitone == math.MinInt {
+		return
+	}
 	d.semitone--
 	if !d.noLogs {
 		log.Info(fmt.Sprintf("semitone down (%d)", d.semitone), d.logFields(logger.Action)...)
@@ -341,6 +368,9 @@ func (d *Device) SemitoneDown() {
 }
 
 func (d *Device) SemitoneUp() {
+	if d.semitone == math.MaxInt {
+		return
+	}
 	d.semitone++
 	if !d.noLogs {
 		log.Info(fmt.Sprintf("semitone up (%d)", d.semitone), d.logFields(logger.Action)...)
